@@ -133,6 +133,8 @@ pub fn run(args: &Args) {
                 }
             };
             let flag = AtomicBool::new(true);
+            out.flush().unwrap();
+            let wedge_fd = out.get_ref().as_raw_fd();
             verif::reset(stop.unwrap_or(u64::MAX), false);
             cap.begin();
             let mut external = false;
@@ -144,9 +146,21 @@ pub fn run(args: &Args) {
                 let h = sc.spawn(move || guard(|| get_best_move_until_stop(&g2, tref, fref, limit)));
                 let deadline = t0 + std::time::Duration::from_millis(watch_ms);
                 while !h.is_finished() {
-                    if std::time::Instant::now() >= deadline && !external {
+                    let now = std::time::Instant::now();
+                    if now >= deadline && !external {
                         external = true;
                         flag.store(false, Relaxed);
+                    }
+                    // the flag has been down for 15 s and the call still has not returned: the search is
+                    // wedged; report it and give up on this process (a thread cannot be killed)
+                    if now >= deadline + std::time::Duration::from_secs(15) {
+                        let mut e = base.clone();
+                        e["hung"] = json!(true);
+                        let line = format!("{}\n", e);
+                        unsafe {
+                            libc::write(wedge_fd, line.as_ptr() as *const libc::c_void, line.len());
+                            libc::_exit(3);
+                        }
                     }
                     std::thread::sleep(std::time::Duration::from_micros(200));
                 }
